@@ -247,15 +247,16 @@ var structuralMutations = []string{"parent-hash", "parent-hash-of-nonce-less-sib
 
 // Bounds of one configuration.
 type Bounds struct {
-	N     int // initial validator set size
-	Epoch uint64
-	Depth int
-	U     int  // size of the key universe (default 5)
-	Big   bool // large-set configuration: restricted sealer menu, shrinking lists
-	GenesisShrink int // large sets: the genesis header already announces a list of this size (0 = same set)
+	N             int // initial validator set size
+	Epoch         uint64
+	Depth         int
+	U             int    // size of the key universe (default 5)
+	Big           bool   // large-set configuration: restricted sealer menu, shrinking lists
+	GenesisShrink int    // large sets: the genesis header already announces a list of this size (0 = same set)
 	Start         uint64 // height of the start header (0 = 4 epochs); chosen just below a power of ten so that the chain crosses a change in the number of decimal digits of the height
-	ViaUpgrade    bool // the client is created one epoch earlier and brought to the start header by the real UpgradeClient (the announced list must become the pending one)
-	Rotate        bool // the start header announces the set with its first validator replaced by an outsider
+	Reanchored    bool   // the client first follows two blocks of a branch that is then abandoned (other state roots) and is brought back to the start header by the real UpgradeClient: the heights above it already hold consensus states
+	ViaUpgrade    bool   // the client is created one epoch earlier and brought to the start header by the real UpgradeClient (the announced list must become the pending one)
+	Rotate        bool   // the start header announces the set with its first validator replaced by an outsider
 }
 
 func (b Bounds) u() int {
@@ -339,6 +340,30 @@ func New(b Bounds) bfs.System {
 		}
 	} else if err := k.CreateClient(s.ctx, Client, cs, cons); err != nil {
 		panic(err)
+	}
+	if b.Reanchored {
+		parent := gen
+		for step := uint64(1); step <= 2; step++ {
+			done := false
+			for signer := 0; signer < b.N && !done; signer++ {
+				for _, d := range []int64{2, 1} {
+					root := sha256.Sum256([]byte(fmt.Sprintf("abandoned branch %d", step)))
+					h := Build(Spec{Parent: parent, Number: g + step, Signer: set[signer], Coinbase: -1, Diff: d, Root: root[:]})
+					cctx, write := c07.ForkW(s.ctx, s.ctx.BlockTime())
+					if err := k.UpdateClient(cctx, Client, h); err == nil {
+						write()
+						parent, done = h, true
+						break
+					}
+				}
+			}
+			if !done {
+				panic("reanchored fixture: no header of the abandoned branch was accepted")
+			}
+		}
+		if err := k.UpgradeClient(s.ctx, Client, cs, cons); err != nil {
+			panic(err)
+		}
 	}
 	s.parent = gen
 	s.m = model{Head: g, Vals: set, Pending: announced, Sealers: map[uint64]int{g: set[0]}}
